@@ -240,7 +240,7 @@ OneLine(ev, args, tbl, aux, obs) ==
   /\ Chk("C12", "present", app => a \in k1, ev, "present")
   \* C17 on the reader path: the row of an applied frame shows the country of its address (certain blocks only)
   /\ Chk("C17", "row.country", (app /\ a \in k1) => RegOK(a, pt[a].reg), ev, "reader.path")
-  /\ Mark("C17", app /\ a \in k1 /\ ~exists, ev)
+  /\ Mark("C17", app /\ a \in k1, ev)
   \* C11: re-feeding the frame just applied to an existing row changes nothing (stamps aside)
   /\ Chk("C11", "refeed",
          (app /\ ev.ok /\ st.last # <<>> /\ st.last[1].slot = ev.slot /\ st.last[1].lines = ev.lines
@@ -445,6 +445,70 @@ CliStep(ev) ==
       /\ Chk("DRIFT", "refresh.per.frame", (observable /\ ev.code = 0 /\ ~ambiguous) => ev.nsnaps = Len(cIdx), ev, ev.profile)
 
 
+(***************************** CLI stream (text level) ********************)
+\* The outermost interface, without the harness: the real binary run with --update=-1 prints one refresh per frame that
+\* reaches the decoder.  The k-th refresh, parsed through its own header, is the post-state of the k-th such frame and the
+\* (k-1)-th its pre-state; the same per-parameter predicates as everywhere else are evaluated on the PRINTED values.
+\* ev: [lines, args (f, U, R), snaps : sequence of [header, sep, rows], code]
+ColIdx(header, cols, name) == LET ix == {k \in 1..Len(cols) : ColName(header, cols[k]) = name} IN IF ix = {} THEN 0 ELSE CHOOSE k \in ix : TRUE
+CellBy(header, cols, line, name) == LET k == ColIdx(header, cols, name) IN IF k = 0 THEN <<>> ELSE Cell(line, cols[k])
+ParseOptInt(t) ==
+  LET u == Trim(t) IN
+  IF u = <<>> THEN <<>>
+  ELSE LET neg == u[1] = 45
+           d   == IF neg THEN Tail(u) ELSE u
+       IN  IF d # <<>> /\ \A i \in 1..Len(d) : IsDigit(d[i]) THEN << (IF neg THEN -1 ELSE 1) * ParseInt(d, 1, 0) >> ELSE << -99999999 >>
+\* the printed row as an abstract row: blank row with the printed parameters filled in
+TextRow(header, cols, line) ==
+  LET cs == Trim(CellBy(header, cols, line, N_CALLSIGN)) IN
+  [BlankRow EXCEPT !.alt = ParseOptInt(CellBy(header, cols, line, N_ALTB)),
+                   !.sq  = ParseOptInt(CellBy(header, cols, line, N_SQWK)),
+                   !.cs  = IF cs = <<>> THEN <<>> ELSE <<cs>>,
+                   !.gs  = ParseOptInt(CellBy(header, cols, line, N_GSP)),
+                   !.trk = ParseOptInt(CellBy(header, cols, line, N_TRK)),
+                   !.vr  = ParseOptInt(CellBy(header, cols, line, N_VRATE))]
+SnapRow(snap, a) ==     \* <<>> or <<printed line of aircraft a>>
+  LET ix == {j \in 1..Len(snap.rows) : RowAddr(snap.rows[j]) = a} IN IF ix = {} THEN <<>> ELSE <<snap.rows[CHOOSE j \in ix : TRUE]>>
+SnapAddrs(snap) == {RowAddr(snap.rows[j]) : j \in 1..Len(snap.rows)}
+DropAges(t) == IF Len(t) >= 6 THEN SubSeq(t, 1, Len(t) - 6) ELSE t          \* "PTH LC" at the end of a row are ages
+
+CliStreamStep(ev) ==
+  LET n    == Len(ev.lines)
+      lis  == [k \in 1..n |-> LineInfo(ev.lines[k])]
+      idx  == SelectSeq([k \in 1..n |-> k], LAMBDA k : lis[k].isf /\ PassesFilter(lis[k].df, ev.args.f) /\ lis[k].a # 0)
+      nine == \A k \in 1..n : lis[k].isf => lis[k].df \in NineDF
+      m    == Len(idx)
+      usable == ev.code = 0 /\ nine /\ Len(ev.snaps) = m
+      Empty == [header |-> <<>>, sep |-> <<>>, rows |-> <<>>]
+      StepOK(k) ==
+        LET f    == lis[idx[k]].f
+            a    == lis[idx[k]].a
+            s0   == IF k = 1 THEN Empty ELSE ev.snaps[k - 1]
+            s1   == ev.snaps[k]
+            cols == Cols(s1.sep)
+            r0   == SnapRow(s0, a)
+            r1   == SnapRow(s1, a)
+            ctx  == [U |-> ev.args.U, R |-> ev.args.R, exists |-> r0 # <<>>]
+            pre  == IF r0 = <<>> THEN BlankRow ELSE TextRow(s0.header, Cols(s0.sep), r0[1])
+            post == IF r1 = <<>> THEN BlankRow ELSE TextRow(s1.header, cols, r1[1])
+            \* a value wider than its column shifts the rest of the line (C14 allows that): such a line is not parsed
+            fit  == (r0 = <<>> \/ Len(r0[1]) = Len(s0.header)) /\ (r1 = <<>> \/ Len(r1[1]) = Len(s1.header))
+            tg   == "frame." \o ToString(k)
+            others == \A b \in SnapAddrs(s0) \ {a} : SnapRow(s1, b) # <<>> /\ DropAges(SnapRow(s1, b)[1]) = DropAges(SnapRow(s0, b)[1])
+        IN  /\ Chk("C11", "cli.present", r1 # <<>>, ev, tg)
+            /\ Chk("C11", "cli.others", others /\ SnapAddrs(s1) \subseteq SnapAddrs(s0) \cup {a}, ev, tg)
+            /\ (r1 = <<>> \/ Free(f) \/ ~fit \/
+                 (/\ Chk("C11", "cli.alt", AdmAlt(pre, post.alt, f, ctx), ev, tg)
+                  /\ Chk("C11", "cli.squawk", AdmSq(pre, post.sq, f, ctx), ev, tg)
+                  /\ Chk("C11", "cli.callsign", IsCommB(f) \/ AdmCs(pre, post.cs, f, ctx), ev, tg)
+                  /\ Chk("C11", "cli.gs", IsCommB(f) \/ AdmGs(pre, post.gs, f, ctx, NoAux.adv), ev, tg)
+                  /\ Chk("C11", "cli.track", IsCommB(f) \/ IsSurface(f) \/ AdmTrk(pre, post.trk, f, ctx, NoAux.adv), ev, tg)
+                  /\ Chk("C11", "cli.vrate", IsCommB(f) \/ (IsVel(f) /\ ~IsVel12(f)) \/ AdmVr(pre, post.vr, f, ctx, NoAux.adv), ev, tg)))
+  IN  /\ Chk("C11", "cli.exit", ev.code = 0, ev, "exit")
+      /\ Chk("DRIFT", "refresh.per.frame", (ev.code = 0 /\ nine) => Len(ev.snaps) = m, ev, "stream")
+      /\ (IF usable THEN \A k \in 1..m : StepOK(k) ELSE TRUE)
+      /\ Mark("C11", usable /\ m > 0, ev)
+
 (***************************** -D downlink log ****************************)
 \* ev: [lines, args.f, log : logged lines as code points, code]
 DlogStep(ev) ==
@@ -637,6 +701,7 @@ Step(ev) ==
   ELSE IF ev.e = "country" THEN (IF CountryStep(ev) THEN st ELSE st)
   ELSE IF ev.e = "cli" THEN (IF CliStep(ev) THEN st ELSE st)
   ELSE IF ev.e = "dlog" THEN (IF DlogStep(ev) THEN st ELSE st)
+  ELSE IF ev.e = "clistream" THEN (IF CliStreamStep(ev) THEN st ELSE st)
   ELSE IF ev.e = "icaosweep" THEN (IF IcaoSweepStep(ev) THEN st ELSE st)
   ELSE IF ev.e = "burst" THEN (IF BurstStep(ev) THEN st ELSE st)
   ELSE st
